@@ -415,7 +415,8 @@ func guardRule(w *World, r *Report, e *Engine, rule string, g guardedField) {
 			if fn.Signature.Recv() != nil {
 				return i, i == 0
 			}
-			if fn.Parent() == nil && fn.Object() != nil && !fn.Object().Exported() {
+			// (not a function whose value is taken - a registered builtin is entered by the binder, which holds no lock)
+			if fn.Parent() == nil && fn.Object() != nil && !fn.Object().Exported() && !e.escapedFn(fn) {
 				if cur, ok := reqParam[fn]; !ok || cur == i {
 					return i, true
 				}
